@@ -531,6 +531,12 @@ func (r *Recomposer) recomp(v any, rv reflect.Value) {
 		v = r.recompAny(v)
 		rv.Set(reflect.ValueOf(v))
 
+	case reflect.Ptr:
+		// A pointer to a pointer (member of type **T, or a **T target).
+		ev := reflect.New(rv.Type().Elem())
+		r.recomp(v, ev)
+		rv.Set(ev)
+
 	case reflect.Bool:
 		rv.Set(reflect.ValueOf(v))
 	case reflect.Int, reflect.Int8, reflect.Int16, reflect.Int32, reflect.Int64,
